@@ -3,7 +3,7 @@ import re, collections, os
 V = os.path.dirname(os.path.dirname(os.path.abspath(__file__)))
 rows = []
 for l in open(os.path.join(V, "seeded", "CATCH_MATRIX.md")):
-    m = re.match(r"\| (C\d\d_\d) \| (C\d\d) \| (.*?) \| (VIOLATION|rc=\d) \| (.*?) \| (.*) \|", l)
+    m = re.match(r"\| (C\d\d_\d+) \| (C\d\d) \| (.*?) \| (VIOLATION|rc=\d) \| (.*?) \| (.*) \|", l)
     if m:
         rows.append(m.groups())
 by = collections.defaultdict(collections.Counter)
